@@ -1,0 +1,516 @@
+//go:build verif
+
+package statedb
+
+// Contracts for the deductive checker in /verif (comment-only; compiled only with -tags verif).
+// Property C05 "a reverted EVM call frame leaves no trace": journal entries, mutators, journal, snapshots.
+// Property C02 (StateDB side): Commit writes the cached balance of every journal-dirty account through the keeper.
+
+/*@
+alias SDB github.com/haqq-network/haqq/x/evm/statedb.StateDB
+alias SObj github.com/haqq-network/haqq/x/evm/statedb.stateObject
+alias Jrnl github.com/haqq-network/haqq/x/evm/statedb.journal
+alias AList github.com/haqq-network/haqq/x/evm/statedb.accessList
+
+// ---- "everything but field X is unchanged" for the two mutable records
+specfunc sdb_fixed(a SDB, b SDB) bool = a.keeper == b.keeper && a.ctx == b.ctx && a.journal == b.journal && a.txConfig == b.txConfig && a.accessList == b.accessList
+specfunc sdb_but_objects(a SDB, b SDB) bool = sdb_fixed(a, b) && a.validRevisions == b.validRevisions && a.nextRevisionID == b.nextRevisionID && a.refund == b.refund && a.logs == b.logs
+specfunc sdb_but_refund(a SDB, b SDB) bool = sdb_fixed(a, b) && a.validRevisions == b.validRevisions && a.nextRevisionID == b.nextRevisionID && a.stateObjects == b.stateObjects && a.logs == b.logs
+specfunc sdb_but_logs(a SDB, b SDB) bool = sdb_fixed(a, b) && a.validRevisions == b.validRevisions && a.nextRevisionID == b.nextRevisionID && a.stateObjects == b.stateObjects && a.refund == b.refund
+specfunc sdb_but_revisions(a SDB, b SDB) bool = sdb_fixed(a, b) && a.stateObjects == b.stateObjects && a.refund == b.refund && a.logs == b.logs
+
+specfunc so_fixed(a SObj, b SObj) bool = a.db == b.db && a.address == b.address && a.transientStorage == b.transientStorage
+specfunc so_but_balance(a SObj, b SObj) bool = so_fixed(a, b) && a.account.Nonce == b.account.Nonce && a.account.CodeHash == b.account.CodeHash && a.code == b.code && a.originStorage == b.originStorage && a.dirtyStorage == b.dirtyStorage && a.dirtyCode == b.dirtyCode && a.suicided == b.suicided
+specfunc so_but_balance_suicided(a SObj, b SObj) bool = so_fixed(a, b) && a.account.Nonce == b.account.Nonce && a.account.CodeHash == b.account.CodeHash && a.code == b.code && a.originStorage == b.originStorage && a.dirtyStorage == b.dirtyStorage && a.dirtyCode == b.dirtyCode
+specfunc so_but_nonce(a SObj, b SObj) bool = so_fixed(a, b) && a.account.Balance == b.account.Balance && a.account.CodeHash == b.account.CodeHash && a.code == b.code && a.originStorage == b.originStorage && a.dirtyStorage == b.dirtyStorage && a.dirtyCode == b.dirtyCode && a.suicided == b.suicided
+specfunc so_but_code(a SObj, b SObj) bool = so_fixed(a, b) && a.account.Balance == b.account.Balance && a.account.Nonce == b.account.Nonce && a.originStorage == b.originStorage && a.dirtyStorage == b.dirtyStorage && a.suicided == b.suicided
+specfunc so_but_codecache(a SObj, b SObj) bool = so_but_code(a, b) && a.account.CodeHash == b.account.CodeHash && a.dirtyCode == b.dirtyCode
+specfunc so_but_dirty(a SObj, b SObj) bool = so_fixed(a, b) && a.account == b.account && a.code == b.code && a.originStorage == b.originStorage && a.dirtyCode == b.dirtyCode && a.suicided == b.suicided
+specfunc so_but_origin(a SObj, b SObj) bool = so_fixed(a, b) && a.account == b.account && a.code == b.code && a.dirtyStorage == b.dirtyStorage && a.dirtyCode == b.dirtyCode && a.suicided == b.suicided
+specfunc so_but_storage(a SObj, b SObj) bool = so_fixed(a, b) && a.account == b.account && a.code == b.code && a.dirtyCode == b.dirtyCode && a.suicided == b.suicided
+
+// ---- the keeper behind the StateDB (interface statedb.Keeper): reads do not change anything
+func (Keeper).GetAccount
+    ensures true
+func (Keeper).GetState
+    ensures true
+func (Keeper).GetCode
+    ensures true
+
+// ---- small accessors: executed in place
+func (*stateObject).Address
+    inline
+func (*stateObject).Balance
+    inline
+func (*stateObject).CodeHash
+    inline
+func (*stateObject).Nonce
+    inline
+func (*stateObject).markSuicided
+    inline
+func (*journal).length
+    inline
+func (*StateDB).setStateObject
+    inline
+
+// ---- constructor of a cached object
+func newObject
+    ensures fresh(result) && result.db == db && result.address == address && !result.suicided && !result.dirtyCode
+            && result.account.Nonce == account.Nonce && result.account.Balance != nil
+            && (account.Balance != nil ==> result.account.Balance == account.Balance)
+
+// ---- raw setters (no journaling)
+func (*stateObject).setBalance
+    requires nonnil: s != nil
+    modifies *s
+    ensures s.account.Balance == amount && so_but_balance(*s, old(*s))
+func (*stateObject).setNonce
+    requires nonnil: s != nil
+    modifies *s
+    ensures s.account.Nonce == nonce && so_but_nonce(*s, old(*s))
+func (*stateObject).setCode
+    requires nonnil: s != nil
+    modifies *s
+    ensures s.code == code && len(s.account.CodeHash) == 32 && (forall k int :: 0 <= k && k < 32 ==> s.account.CodeHash[k] == codeHash[k])
+            && s.dirtyCode && so_but_code(*s, old(*s))
+func (*stateObject).setState
+    requires nonnil: s != nil
+    modifies *s
+    ensures s.dirtyStorage == mapput(old(s.dirtyStorage), key, value) && so_but_dirty(*s, old(*s))
+
+// ---- object lookup: a cached (live) object is returned as is and nothing changes
+func (*StateDB).getStateObject
+    requires nonnil: s != nil && s.keeper != nil
+    modifies *s
+    ensures cached: old(s.stateObjects)[addr] != nil ==> result == old(s.stateObjects)[addr] && *s == old(*s)
+    ensures absent: old(s.stateObjects)[addr] == nil && result == nil ==> *s == old(*s)
+    ensures loaded: old(s.stateObjects)[addr] == nil && result != nil ==> fresh(result) && result.address == addr && result.db == s
+            && !result.suicided && result.account.Balance != nil && s.stateObjects == mapput(old(s.stateObjects), addr, result) && sdb_but_objects(*s, old(*s))
+
+// =====================================================================================================================
+// C05, the ten kinds of journal entry: Revert restores exactly the recorded field of the recorded object, nothing else.
+// "live": the entry's account has a cached state object (journal invariant: every mutator fetches the object first and
+// objects leave the cache only through createObjectChange.Revert, after all younger entries have been reverted).
+
+func (createObjectChange).Revert
+    requires nonnil: s != nil && ch.account != nil
+    modifies *s
+    ensures removed: s.stateObjects == mapdel(old(s.stateObjects), *ch.account) && !has(s.stateObjects, *ch.account)
+    ensures frame: sdb_but_objects(*s, old(*s))
+func (createObjectChange).Dirtied
+    ensures result == ch.account
+
+func (resetObjectChange).Revert
+    requires nonnil: s != nil && ch.prev != nil
+    modifies *s
+    ensures restored: s.stateObjects == mapput(old(s.stateObjects), ch.prev.address, ch.prev) && s.stateObjects[ch.prev.address] == ch.prev
+    ensures frame: sdb_but_objects(*s, old(*s))
+func (resetObjectChange).Dirtied
+    ensures result == nil
+
+func (suicideChange).Revert
+    let obj = old(s.stateObjects[*ch.account])
+    requires nonnil: s != nil && s.keeper != nil && ch.account != nil
+    requires live: s.stateObjects[*ch.account] != nil
+    modifies *s.stateObjects[*ch.account]
+    ensures restored: obj.suicided == ch.prev && obj.account.Balance == ch.prevbalance
+    ensures frame: so_but_balance_suicided(*obj, old(*obj)) && *s == old(*s)
+func (suicideChange).Dirtied
+    ensures result == ch.account
+
+func (balanceChange).Revert
+    let obj = old(s.stateObjects[*ch.account])
+    requires nonnil: s != nil && s.keeper != nil && ch.account != nil
+    requires live: s.stateObjects[*ch.account] != nil
+    modifies *s.stateObjects[*ch.account]
+    ensures restored: obj.account.Balance == ch.prev
+    ensures frame: so_but_balance(*obj, old(*obj)) && *s == old(*s)
+func (balanceChange).Dirtied
+    ensures result == ch.account
+
+func (nonceChange).Revert
+    let obj = old(s.stateObjects[*ch.account])
+    requires nonnil: s != nil && s.keeper != nil && ch.account != nil
+    requires live: s.stateObjects[*ch.account] != nil
+    modifies *s.stateObjects[*ch.account]
+    ensures restored: obj.account.Nonce == ch.prev
+    ensures frame: so_but_nonce(*obj, old(*obj)) && *s == old(*s)
+func (nonceChange).Dirtied
+    ensures result == ch.account
+
+// the code hash is restored byte for byte (common.BytesToHash: right-aligned copy of the recorded 32-byte slice), the code
+// cache is restored; NOTE the dirtyCode flag is not restored but set (the entry does not record it): see REPORT, observation O1
+func (codeChange).Revert
+    let obj = old(s.stateObjects[*ch.account])
+    requires nonnil: s != nil && s.keeper != nil && ch.account != nil
+    requires live: s.stateObjects[*ch.account] != nil
+    requires hash32: len(ch.prevhash) == 32
+    modifies *s.stateObjects[*ch.account]
+    ensures restored: obj.code == ch.prevcode && len(obj.account.CodeHash) == 32
+            && (forall k int :: 0 <= k && k < 32 ==> obj.account.CodeHash[k] == ch.prevhash[k])
+    ensures dirty: obj.dirtyCode
+    ensures frame: so_but_code(*obj, old(*obj)) && *s == old(*s)
+func (codeChange).Dirtied
+    ensures result == ch.account
+
+func (storageChange).Revert
+    let obj = old(s.stateObjects[*ch.account])
+    requires nonnil: s != nil && s.keeper != nil && ch.account != nil
+    requires live: s.stateObjects[*ch.account] != nil
+    modifies *s.stateObjects[*ch.account]
+    ensures restored: obj.dirtyStorage[ch.key] == ch.prevalue && obj.dirtyStorage == mapput(old(obj.dirtyStorage), ch.key, ch.prevalue)
+    ensures frame: so_but_dirty(*obj, old(*obj)) && *s == old(*s)
+func (storageChange).Dirtied
+    ensures result == ch.account
+
+func (refundChange).Revert
+    requires nonnil: s != nil
+    modifies *s
+    ensures restored: s.refund == ch.prev
+    ensures frame: sdb_but_refund(*s, old(*s))
+func (refundChange).Dirtied
+    ensures result == nil
+
+// the youngest log is dropped, the older ones stay
+func (addLogChange).Revert
+    requires nonnil: s != nil
+    requires some: len(s.logs) >= 1
+    modifies *s
+    ensures restored: len(s.logs) == old(len(s.logs)) - 1 && (forall k int :: 0 <= k && k < len(s.logs) ==> s.logs[k] == old(s.logs)[k])
+    ensures frame: sdb_but_logs(*s, old(*s))
+func (addLogChange).Dirtied
+    ensures result == nil
+
+// ---- access list (EIP-2929 warm set)
+func (*accessList).DeleteAddress
+    requires nonnil: al != nil
+    modifies *al
+    ensures al.addresses == mapdel(old(al.addresses), address) && al.slots == old(al.slots)
+// Only the frame is stated: the body deletes from a map through a local alias (slotmap := al.slots[idx]), which the
+// engine's value model of maps does not follow (see REPORT, limits).
+func (*accessList).DeleteSlot
+    requires nonnil: al != nil
+    requires present: has(al.addresses, address) && 0 <= al.addresses[address] && al.addresses[address] < len(al.slots)
+    modifies *al
+    ensures true
+func (accessListAddSlotChange).Revert
+    requires nonnil: s != nil && s.accessList != nil && ch.address != nil && ch.slot != nil
+    requires present: has(s.accessList.addresses, *ch.address) && 0 <= s.accessList.addresses[*ch.address] && s.accessList.addresses[*ch.address] < len(s.accessList.slots)
+    modifies *s.accessList
+    ensures frame: *s == old(*s)
+func (accessListAddSlotChange).Dirtied
+    ensures result == nil
+
+func (accessListAddAccountChange).Revert
+    requires nonnil: s != nil && s.accessList != nil && ch.address != nil
+    modifies *s.accessList
+    ensures removed: s.accessList.addresses == mapdel(old(s.accessList.addresses), *ch.address) && !has(s.accessList.addresses, *ch.address)
+    ensures frame: s.accessList.slots == old(s.accessList.slots) && *s == old(*s)
+func (accessListAddAccountChange).Dirtied
+    ensures result == nil
+
+// =====================================================================================================================
+// the journal
+alias ECreate github.com/haqq-network/haqq/x/evm/statedb.createObjectChange
+alias EReset github.com/haqq-network/haqq/x/evm/statedb.resetObjectChange
+alias ESuicide github.com/haqq-network/haqq/x/evm/statedb.suicideChange
+alias EBalance github.com/haqq-network/haqq/x/evm/statedb.balanceChange
+alias ENonce github.com/haqq-network/haqq/x/evm/statedb.nonceChange
+alias EStorage github.com/haqq-network/haqq/x/evm/statedb.storageChange
+alias ECode github.com/haqq-network/haqq/x/evm/statedb.codeChange
+alias ERefund github.com/haqq-network/haqq/x/evm/statedb.refundChange
+alias ELog github.com/haqq-network/haqq/x/evm/statedb.addLogChange
+alias EAlAcc github.com/haqq-network/haqq/x/evm/statedb.accessListAddAccountChange
+alias EAlSlot github.com/haqq-network/haqq/x/evm/statedb.accessListAddSlotChange
+alias JEntry github.com/haqq-network/haqq/x/evm/statedb.JournalEntry
+// closed set of entry kinds: proved at every dynamic call (obligation pre.dispatch), never assumed
+specfunc entry_known(e JEntry) bool = typeis(e, ECreate) || typeis(e, EReset) || typeis(e, ESuicide) || typeis(e, EBalance) || typeis(e, ENonce) || typeis(e, EStorage) || typeis(e, ECode) || typeis(e, ERefund) || typeis(e, ELog) || typeis(e, EAlAcc) || typeis(e, EAlSlot)
+// the address an entry marks dirty (nil for entries that do not belong to one account)
+specfunc entry_dirtied(e JEntry) *github.com/ethereum/go-ethereum/common.Address = ite(typeis(e, ECreate), cast(e, ECreate).account, ite(typeis(e, ESuicide), cast(e, ESuicide).account, ite(typeis(e, EBalance), cast(e, EBalance).account, ite(typeis(e, ENonce), cast(e, ENonce).account, ite(typeis(e, ECode), cast(e, ECode).account, ite(typeis(e, EStorage), cast(e, EStorage).account, nil))))))
+
+func (JournalEntry).Dirtied
+    dispatch (createObjectChange).Dirtied, (resetObjectChange).Dirtied, (suicideChange).Dirtied, (balanceChange).Dirtied, (nonceChange).Dirtied, (storageChange).Dirtied, (codeChange).Dirtied, (refundChange).Dirtied, (addLogChange).Dirtied, (accessListAddAccountChange).Dirtied, (accessListAddSlotChange).Dirtied
+func (JournalEntry).Revert
+    dispatch (createObjectChange).Revert, (resetObjectChange).Revert, (suicideChange).Revert, (balanceChange).Revert, (nonceChange).Revert, (storageChange).Revert, (codeChange).Revert, (refundChange).Revert, (addLogChange).Revert, (accessListAddAccountChange).Revert, (accessListAddSlotChange).Revert
+
+// append: exactly one entry is added at the end; the dirty counter of its account (if any) goes up by one
+func (*journal).append
+    let n = old(len(j.entries))
+    let d = entry_dirtied(entry)
+    requires nonnil: j != nil
+    requires known: entry_known(entry)
+    modifies *j
+    ensures appended: len(j.entries) == n + 1 && j.entries[n] == entry && (forall k int :: 0 <= k && k < n ==> j.entries[k] == old(j.entries)[k])
+    ensures clean: d == nil ==> j.dirties == old(j.dirties)
+    ensures dirty: d != nil ==> j.dirties == mapput(old(j.dirties), *d, old(j.dirties)[*d] + 1)
+
+// =====================================================================================================================
+// C05, the mutators: each appends exactly one entry that records the object and the previous value of the field it is
+// about to overwrite (so that entry.Revert - contracts above - puts that value back), then overwrites the field.
+
+func (*stateObject).SetBalance
+    let j = s.db.journal
+    let n = old(len(s.db.journal.entries))
+    let e = cast(s.db.journal.entries[n], EBalance)
+    requires nonnil: s != nil && s.db != nil && s.db.journal != nil && amount != nil && s.account.Balance != nil
+    // heap well-formedness: a stored pointer refers to an already allocated object (true of every Go heap)
+    requires allocated: s.account.Balance < $alloc
+    modifies *s, *s.db.journal
+    ensures appended: len(j.entries) == n + 1 && (forall k int :: 0 <= k && k < n ==> j.entries[k] == old(j.entries)[k])
+    ensures entry: typeis(j.entries[n], EBalance) && e.account != nil && *e.account == s.address
+    ensures prev: e.prev != nil && *e.prev == old(*s.account.Balance)
+    ensures private: fresh(e.prev)
+    ensures dirty: j.dirties == mapput(old(j.dirties), s.address, old(j.dirties)[s.address] + 1)
+    ensures set: s.account.Balance == amount && so_but_balance(*s, old(*s))
+
+func (*stateObject).SetNonce
+    let j = s.db.journal
+    let n = old(len(s.db.journal.entries))
+    let e = cast(s.db.journal.entries[n], ENonce)
+    requires nonnil: s != nil && s.db != nil && s.db.journal != nil
+    modifies *s, *s.db.journal
+    ensures appended: len(j.entries) == n + 1 && (forall k int :: 0 <= k && k < n ==> j.entries[k] == old(j.entries)[k])
+    ensures entry: typeis(j.entries[n], ENonce) && e.account != nil && *e.account == s.address && e.prev == old(s.account.Nonce)
+    ensures dirty: j.dirties == mapput(old(j.dirties), s.address, old(j.dirties)[s.address] + 1)
+    ensures set: s.account.Nonce == nonce && so_but_nonce(*s, old(*s))
+
+// ---- reads with a cache side effect
+func (*stateObject).Code
+    requires nonnil: s != nil && s.db != nil && s.db.keeper != nil
+    modifies *s
+    ensures cached: old(len(s.code)) > 0 ==> result == old(s.code) && *s == old(*s)
+    ensures frame: so_but_codecache(*s, old(*s))
+func (*stateObject).GetCommittedState
+    requires nonnil: s != nil && s.db != nil && s.db.keeper != nil
+    modifies *s
+    ensures cached: has(old(s.originStorage), key) ==> result == old(s.originStorage)[key] && *s == old(*s)
+    ensures loaded: !has(old(s.originStorage), key) ==> s.originStorage == mapput(old(s.originStorage), key, result) && so_but_origin(*s, old(*s))
+func (*stateObject).GetState
+    requires nonnil: s != nil && s.db != nil && s.db.keeper != nil
+    modifies *s
+    ensures dirty: has(old(s.dirtyStorage), key) ==> result == old(s.dirtyStorage)[key] && *s == old(*s)
+    ensures clean: !has(old(s.dirtyStorage), key) ==> result == s.originStorage[key] && has(s.originStorage, key) && so_but_origin(*s, old(*s))
+            && (has(old(s.originStorage), key) ==> *s == old(*s))
+
+func (*stateObject).SetCode
+    let j = s.db.journal
+    let n = old(len(s.db.journal.entries))
+    let e = cast(s.db.journal.entries[n], ECode)
+    requires nonnil: s != nil && s.db != nil && s.db.journal != nil && s.db.keeper != nil
+    modifies *s, *s.db.journal
+    ensures appended: len(j.entries) == n + 1 && (forall k int :: 0 <= k && k < n ==> j.entries[k] == old(j.entries)[k])
+    ensures entry: typeis(j.entries[n], ECode) && e.account != nil && *e.account == s.address && e.prevhash == old(s.account.CodeHash)
+            && (old(len(s.code)) > 0 ==> e.prevcode == old(s.code))
+    ensures dirty: j.dirties == mapput(old(j.dirties), s.address, old(j.dirties)[s.address] + 1)
+    ensures set: s.code == code && len(s.account.CodeHash) == 32 && (forall k int :: 0 <= k && k < 32 ==> s.account.CodeHash[k] == codeHash[k])
+            && s.dirtyCode && so_but_code(*s, old(*s))
+
+// SetState: a write of the value the slot already has is not journalled and changes nothing but the read cache;
+// otherwise the entry records the value GetState returned (the dirty value, else the committed one)
+func (*stateObject).SetState
+    let j = s.db.journal
+    let n = old(len(s.db.journal.entries))
+    let e = cast(s.db.journal.entries[n], EStorage)
+    let prev = ite(has(old(s.dirtyStorage), key), old(s.dirtyStorage)[key], s.originStorage[key])
+    requires nonnil: s != nil && s.db != nil && s.db.journal != nil && s.db.keeper != nil
+    modifies *s, *s.db.journal
+    ensures noop: prev == value ==> *j == old(*j) && so_but_origin(*s, old(*s))
+    ensures appended: prev != value ==> len(j.entries) == n + 1 && (forall k int :: 0 <= k && k < n ==> j.entries[k] == old(j.entries)[k])
+    ensures entry: prev != value ==> typeis(j.entries[n], EStorage) && e.account != nil && *e.account == s.address && e.key == key && e.prevalue == prev
+    ensures dirty: prev != value ==> j.dirties == mapput(old(j.dirties), s.address, old(j.dirties)[s.address] + 1)
+    ensures set: prev != value ==> s.dirtyStorage == mapput(old(s.dirtyStorage), key, value) && so_but_storage(*s, old(*s))
+
+func (*StateDB).AddLog
+    let j = s.journal
+    let n = old(len(s.journal.entries))
+    let m = old(len(s.logs))
+    requires nonnil: s != nil && s.journal != nil && log != nil
+    // Go invariant (len is an int), not tracked by the engine for slices read from the heap
+    requires intlen: len(s.logs) <= 9223372036854775807
+    modifies *s, *s.journal, *log
+    ensures appended: len(j.entries) == n + 1 && (forall k int :: 0 <= k && k < n ==> j.entries[k] == old(j.entries)[k])
+    ensures entry: typeis(j.entries[n], ELog) && j.dirties == old(j.dirties)
+    ensures logs: len(s.logs) == m + 1 && s.logs[m] == log && (forall k int :: 0 <= k && k < m ==> s.logs[k] == old(s.logs)[k]) && sdb_but_logs(*s, old(*s))
+    ensures stamped: log.TxHash == s.txConfig.TxHash && log.BlockHash == s.txConfig.BlockHash && log.TxIndex == s.txConfig.TxIndex && log.Index == s.txConfig.LogIndex + m
+
+func (*StateDB).AddRefund
+    let j = s.journal
+    let n = old(len(s.journal.entries))
+    requires nonnil: s != nil && s.journal != nil
+    modifies *s, *s.journal
+    ensures appended: len(j.entries) == n + 1 && (forall k int :: 0 <= k && k < n ==> j.entries[k] == old(j.entries)[k])
+    ensures entry: typeis(j.entries[n], ERefund) && cast(j.entries[n], ERefund).prev == old(s.refund) && j.dirties == old(j.dirties)
+    ensures set: s.refund == old(s.refund) + gas && sdb_but_refund(*s, old(*s))
+
+func (*StateDB).SubRefund
+    let j = s.journal
+    let n = old(len(s.journal.entries))
+    requires nonnil: s != nil && s.journal != nil
+    requires enough: gas <= s.refund
+    modifies *s, *s.journal
+    ensures appended: len(j.entries) == n + 1 && (forall k int :: 0 <= k && k < n ==> j.entries[k] == old(j.entries)[k])
+    ensures entry: typeis(j.entries[n], ERefund) && cast(j.entries[n], ERefund).prev == old(s.refund) && j.dirties == old(j.dirties)
+    ensures set: s.refund == old(s.refund) - gas && sdb_but_refund(*s, old(*s))
+
+// Suicide of a cached account: the entry records the previous flag and a private copy of the previous balance
+func (*StateDB).Suicide
+    let j = s.journal
+    let n = old(len(s.journal.entries))
+    let e = cast(s.journal.entries[n], ESuicide)
+    let was = old(s.stateObjects[addr])
+    let obj = s.stateObjects[addr]
+    requires nonnil: s != nil && s.journal != nil && s.keeper != nil
+    requires allocated: s.stateObjects[addr] != nil ==> s.stateObjects[addr].account.Balance != nil && s.stateObjects[addr].account.Balance < $alloc
+    modifies *s, *s.journal, *s.stateObjects[addr]
+    ensures missing: !result ==> *j == old(*j) && was == nil
+    ensures appended: result ==> len(j.entries) == n + 1 && (forall k int :: 0 <= k && k < n ==> j.entries[k] == old(j.entries)[k])
+    ensures entry: result ==> typeis(j.entries[n], ESuicide) && e.account != nil && *e.account == addr && e.prevbalance != nil
+    ensures recorded: result && was != nil ==> obj == was && e.prev == old(was.suicided) && *e.prevbalance == old(*was.account.Balance) && fresh(e.prevbalance)
+    ensures dirty: result ==> j.dirties == mapput(old(j.dirties), addr, old(j.dirties)[addr] + 1)
+    ensures set: result ==> obj != nil && obj.suicided && obj.account.Balance != nil && *obj.account.Balance == 0
+    ensures frame: result && was != nil ==> so_but_balance_suicided(*obj, old(*was)) && sdb_but_objects(*s, old(*s)) && s.stateObjects == old(s.stateObjects)
+
+// =====================================================================================================================
+// journal.Revert / snapshots
+alias Entries []github.com/haqq-network/haqq/x/evm/statedb.JournalEntry
+// the account whose cached object an entry's Revert writes to (nil: the entry does not touch an object)
+specfunc entry_obj(e JEntry) *github.com/ethereum/go-ethereum/common.Address = ite(typeis(e, ESuicide), cast(e, ESuicide).account, ite(typeis(e, EBalance), cast(e, EBalance).account, ite(typeis(e, ENonce), cast(e, ENonce).account, ite(typeis(e, ECode), cast(e, ECode).account, ite(typeis(e, EStorage), cast(e, EStorage).account, nil)))))
+// state-independent part of the preconditions of the entries' Revert methods
+specfunc entry_wf(e JEntry) bool = entry_known(e) && !typeis(e, EAlSlot)
+        && (typeis(e, ECreate) ==> cast(e, ECreate).account != nil) && (typeis(e, EReset) ==> cast(e, EReset).prev != nil)
+        && (typeis(e, ESuicide) ==> cast(e, ESuicide).account != nil) && (typeis(e, EBalance) ==> cast(e, EBalance).account != nil)
+        && (typeis(e, ENonce) ==> cast(e, ENonce).account != nil) && (typeis(e, EStorage) ==> cast(e, EStorage).account != nil)
+        && (typeis(e, ECode) ==> cast(e, ECode).account != nil && len(cast(e, ECode).prevhash) == 32)
+        && (typeis(e, EAlAcc) ==> cast(e, EAlAcc).address != nil)
+// number of addLog entries among es[lo:hi)
+ghost func nlogs(es Entries, lo int, hi int) int
+    def ite(hi <= lo, 0, nlogs(es, lo, hi - 1) + ite(typeis(es[hi - 1], ELog), 1, 0))
+
+lemma NlogsNonneg(es Entries, lo int, hi int)
+    ensures nlogs(es, lo, hi) >= 0
+    induction hi above lo
+// the same number, counted from the low end (used for the exact postcondition: the loop runs downwards)
+ghost func nlogs_dn(es Entries, lo int, hi int) int
+    def ite(hi <= lo, 0, nlogs_dn(es, lo + 1, hi) + ite(typeis(es[lo], ELog), 1, 0))
+
+alias Addr20 github.com/ethereum/go-ethereum/common.Address
+// number of entries among es[lo:hi) that mark address a dirty
+ghost func ndirty_dn(es Entries, lo int, hi int, a Addr20) int
+    def ite(hi <= lo, 0, ndirty_dn(es, lo + 1, hi, a) + ite(entry_dirtied(es[lo]) != nil && *entry_dirtied(es[lo]) == a, 1, 0))
+
+// journal.Revert undoes the entries [snapshot, len) youngest first - every one through its own Revert (contracts above),
+// on the given StateDB - and drops them. Preconditions = the journal invariant that the mutators establish:
+//   wf      every entry is of a known kind with its pointers set (access-list SLOT entries are excluded: see REPORT, limits),
+//   live    the object of every object entry is cached,
+//   order   no entry refers to an account that a YOUNGER createObjectChange in the range created (its object disappears
+//           when that creation is reverted, which happens first),
+//   logs    there are at least as many logs as addLog entries in the range.
+func (*journal).Revert
+    let n = old(len(j.entries))
+    ghostvar a Addr20
+    requires nonnil: j != nil && statedb != nil && statedb.keeper != nil && statedb.accessList != nil
+    requires range: 0 <= snapshot && snapshot <= len(j.entries)
+    requires wf: forall k int :: snapshot <= k && k < len(j.entries) ==> entry_wf(j.entries[k])
+    requires live: forall k int :: snapshot <= k && k < len(j.entries) && entry_obj(j.entries[k]) != nil ==> statedb.stateObjects[*entry_obj(j.entries[k])] != nil
+    requires order: forall k int, m int :: snapshot <= k && k < m && m < len(j.entries) && typeis(j.entries[m], ECreate) && entry_obj(j.entries[k]) != nil
+             ==> *entry_obj(j.entries[k]) != *cast(j.entries[m], ECreate).account
+    requires logs: len(statedb.logs) >= nlogs(j.entries, snapshot, len(j.entries))
+    modifies *j, *statedb
+    allow frame
+    loop 1 invariant bounds: snapshot - 1 <= i && i < n && n == len(j.entries)
+    loop 1 invariant entries: j.entries == old(j.entries)
+    loop 1 invariant fixed: sdb_fixed(*statedb, old(*statedb)) && statedb.validRevisions == old(statedb.validRevisions) && statedb.nextRevisionID == old(statedb.nextRevisionID)
+    loop 1 invariant live: forall k int :: snapshot <= k && k <= i && entry_obj(j.entries[k]) != nil ==> statedb.stateObjects[*entry_obj(j.entries[k])] != nil
+    loop 1 invariant logs: len(statedb.logs) >= nlogs(j.entries, snapshot, i + 1)
+    loop 1 invariant dropped: len(statedb.logs) == old(len(statedb.logs)) - nlogs_dn(j.entries, i + 1, n)
+    loop 1 head use $unfold(nlogs(j.entries, snapshot, i + 1))
+    loop 1 head use NlogsNonneg(j.entries, snapshot, i)
+    loop 1 back use $unfold(nlogs_dn(j.entries, i + 1, n))
+    loop 1 invariant counters: j.dirties[a] == old(j.dirties)[a] - ndirty_dn(j.entries, i + 1, n, a)
+    loop 1 back use $unfold(ndirty_dn(j.entries, i + 1, n, a))
+    ensures truncated: len(j.entries) == snapshot && (forall k int :: 0 <= k && k < snapshot ==> j.entries[k] == old(j.entries)[k])
+    ensures fixed: sdb_fixed(*statedb, old(*statedb)) && statedb.validRevisions == old(statedb.validRevisions) && statedb.nextRevisionID == old(statedb.nextRevisionID)
+    ensures logs: len(statedb.logs) == old(len(statedb.logs)) - nlogs_dn(old(j.entries), snapshot, n)
+    // for every address a: its dirty counter went down by the number of reverted entries that had marked it (j.dirties[a] is
+    // Go's lookup: 0 when the key is absent - a counter that reaches 0 is deleted)
+    ensures counters: j.dirties[a] == old(j.dirties)[a] - ndirty_dn(old(j.entries), snapshot, n, a)
+
+// Snapshot: ids are handed out strictly increasing; the revision remembers the current journal length
+func (*StateDB).Snapshot
+    let m = old(len(s.validRevisions))
+    requires nonnil: s != nil && s.journal != nil
+    requires ids: forall k int :: 0 <= k && k < len(s.validRevisions) ==> s.validRevisions[k].id < s.nextRevisionID
+    modifies *s
+    ensures id: result == old(s.nextRevisionID) && s.nextRevisionID == result + 1
+    ensures pushed: len(s.validRevisions) == m + 1 && s.validRevisions[m].id == result && s.validRevisions[m].journalIndex == len(s.journal.entries)
+            && (forall k int :: 0 <= k && k < m ==> s.validRevisions[k] == old(s.validRevisions)[k])
+    ensures ids: forall k int :: 0 <= k && k < len(s.validRevisions) ==> s.validRevisions[k].id < s.nextRevisionID
+    ensures newest: forall k int :: 0 <= k && k < m ==> s.validRevisions[k].id < result
+    ensures frame: sdb_but_revisions(*s, old(*s)) && *s.journal == old(*s.journal)
+
+// RevertToSnapshot(revid): the revision with that id (k-th of the stack; unique since ids increase) is looked up, the
+// journal is reverted to exactly its journal index on this StateDB, and that revision and all younger ones are dropped.
+// An unknown id panics. The journal preconditions are those of journal.Revert for that index.
+func (*StateDB).RevertToSnapshot
+    ghostvar k int
+    let snap = old(s.validRevisions[k].journalIndex)
+    let j = s.journal
+    maypanic
+    requires nonnil: s != nil && s.journal != nil && s.keeper != nil && s.accessList != nil
+    requires found: 0 <= k && k < len(s.validRevisions) && s.validRevisions[k].id == revid
+    requires increasing: forall a int, b int :: 0 <= a && a < b && b < len(s.validRevisions) ==> s.validRevisions[a].id < s.validRevisions[b].id
+    requires range: 0 <= s.validRevisions[k].journalIndex && s.validRevisions[k].journalIndex <= len(s.journal.entries)
+    requires wf: forall i int :: s.validRevisions[k].journalIndex <= i && i < len(j.entries) ==> entry_wf(j.entries[i])
+    requires live: forall i int :: s.validRevisions[k].journalIndex <= i && i < len(j.entries) && entry_obj(j.entries[i]) != nil ==> s.stateObjects[*entry_obj(j.entries[i])] != nil
+    requires order: forall i int, m int :: s.validRevisions[k].journalIndex <= i && i < m && m < len(j.entries) && typeis(j.entries[m], ECreate) && entry_obj(j.entries[i]) != nil
+             ==> *entry_obj(j.entries[i]) != *cast(j.entries[m], ECreate).account
+    requires logs: len(s.logs) >= nlogs(j.entries, s.validRevisions[k].journalIndex, len(j.entries))
+    modifies *s, *s.journal
+    allow frame
+    call Revert requires target: statedb == s && snapshot == snap
+    ensures journal: len(j.entries) == snap && (forall i int :: 0 <= i && i < snap ==> j.entries[i] == old(j.entries)[i])
+    ensures revisions: len(s.validRevisions) == k && (forall i int :: 0 <= i && i < k ==> s.validRevisions[i] == old(s.validRevisions)[i])
+    ensures logs: len(s.logs) == old(len(s.logs)) - nlogs_dn(old(j.entries), snap, old(len(j.entries)))
+    ensures fixed: sdb_fixed(*s, old(*s)) && s.nextRevisionID == old(s.nextRevisionID)
+
+// =====================================================================================================================
+// C02, StateDB side: Commit writes every journal-dirty account back through the keeper with the CACHED account record
+// (nonce, balance pointer, code hash) - so with the keeper lemma (x/evm/keeper SetBalance: supply moves by amount - bank
+// balance) the supply moves by the sum over the dirty addresses of (cached - bank): a Cosmos-side change of a dirty
+// account's bank balance made during the transaction is overwritten (finding F-C02 in REPORT).
+
+// ASSUMED (the body ranges over a map, which the engine does not support): the returned addresses are dirty ones.
+func (*journal).sortedDirties
+    trusted
+    ensures forall k int :: 0 <= k && k < len(result) ==> has(j.dirties, result[k])
+func (Storage).SortedKeys
+    trusted
+    ensures len(result) >= 0
+
+// keeper writes: only x/bank state may change (contracts of the implementation: x/evm/keeper, config C02)
+func (Keeper).SetAccount
+    modifies bank_bal, bank_supply
+    ensures true
+func (Keeper).DeleteAccount
+    modifies bank_bal, bank_supply
+    ensures true
+func (Keeper).SetState
+    ensures true
+func (Keeper).SetCode
+    ensures true
+
+func (*StateDB).Commit
+    requires nonnil: s != nil && s.journal != nil && s.keeper != nil
+    requires cached: forall a Addr20 :: has(s.journal.dirties, a) ==> s.stateObjects[a] != nil && s.stateObjects[a].address == a
+    modifies bank_bal, bank_supply
+    allow frame
+    loop 1 invariant idx: 0 <= #i
+    loop 1 invariant ident: forall a Addr20 :: has(s.journal.dirties, a) ==> s.stateObjects[a] != nil && s.stateObjects[a].address == a
+    loop 2 invariant idx: 0 <= #i
+    loop 2 invariant ident: forall a Addr20 :: has(s.journal.dirties, a) ==> s.stateObjects[a] != nil && s.stateObjects[a].address == a
+    loop 2 invariant obj: obj != nil && obj == s.stateObjects[addr] && has(s.journal.dirties, addr) && !obj.suicided
+    // every write-back is for a dirty address, of a live (not self-destructed) cached object, with that object's cached record
+    call SetAccount requires cachedrecord: has(s.journal.dirties, obj.address) && !obj.suicided && account == obj.account && addr == obj.address
+    call DeleteAccount requires suicided: has(s.journal.dirties, obj.address) && obj.suicided && addr == obj.address
+    ensures true
+@*/
